@@ -483,6 +483,9 @@ func corr(e *env, seed uint64, n int) {
 	e.trexCases(r, n/8, next)
 	// --- Q: DecryptInit on moovs with several protected entries / tracks
 	e.entryCases(r, n/2, next)
+	// --- U / V: durations, flags, composition offsets, decode times; the trun codec
+	e.timingCases(r, n/8, next)
+	trunMalformed(r, n/2, next)
 	thirdPartyStruct(e, next)
 	out.Flush()
 }
@@ -1018,6 +1021,11 @@ func searchFiles(e *env, r *hx.Rng, n int) {
 			if d := e.checkEncrypted(encRaw, samples, codec, scheme, key); d != "" {
 				fail("mp4.EncryptFragment", "file-not-encrypted-as-specified", wit, d)
 			}
+			// sizes, durations, flags, composition offsets and decode times of the ENCRYPTED file are the clear ones
+			// (the defaults EncryptFragment's GetFullSamples wrote into trun.Samples must not reach the file)
+			if d := metaDiff(clearRaw, encRaw); d != "" {
+				fail("mp4.EncryptFragment", "file-encrypted-sample-metadata", wit, d)
+			}
 		}
 		cls := "file"
 		if fo.baseVar != 0 {
@@ -1082,6 +1090,26 @@ func searchFiles(e *env, r *hx.Rng, n int) {
 			}
 		}
 	}
+}
+
+// metaDiff: Sample fields and decode times of every fragment of two files (each read with its own trex)
+func metaDiff(aRaw, bRaw []byte) string {
+	a, err1 := mp4.DecodeFile(bytes.NewReader(aRaw))
+	b, err2 := mp4.DecodeFile(bytes.NewReader(bRaw))
+	if err1 != nil || err2 != nil || len(a.Segments) != 1 || len(b.Segments) != 1 || len(a.Segments[0].Fragments) != len(b.Segments[0].Fragments) {
+		return "" // reported elsewhere
+	}
+	for k := range a.Segments[0].Fragments {
+		x, e1 := a.Segments[0].Fragments[k].GetFullSamples(a.Init.Moov.Mvex.Trex)
+		y, e2 := b.Segments[0].Fragments[k].GetFullSamples(b.Init.Moov.Mvex.Trex)
+		if e1 != nil || e2 != nil {
+			return ""
+		}
+		if metaString(x) != metaString(y) {
+			return fmt.Sprintf("fragment %d: sample flags/dur/size/cto@time %s, clear file %s", k, trunc(metaString(y), 300), trunc(metaString(x), 300))
+		}
+	}
+	return ""
 }
 
 // searchBins: the same round trip through the built mp4ff-encrypt / mp4ff-decrypt binaries.
